@@ -115,21 +115,13 @@ def check(R, F, P, cfg):
         S = Super(P, f, opaque=DO - {fname})
         ns = S.calls_to(callee)
         for n in ns:
-            cl = n.ctx
-            if cl is S.root_ctx:
-                R.inst("R2.4", "whole-list:%s:%s" % (fname, short(callee)), False, "%s is not called from an iteration closure" % short(callee), where=n.where(), cfg=cfg)
+            ic = iteration_context(S, n)
+            if ic is None:
+                R.inst("R2.4", "whole-list:%s:%s" % (fname, short(callee)), False, "%s is not executed once per element of `list.iter()` (neither in a for_each/fold closure nor in a `for` loop over it)" % short(callee), where=n.where(), cfg=cfg)
                 continue
-            entry = S.blocks_of[(cl.id, 0)]
-            rets = [x for x in S.nodes if x.ctx is cl and x.kind == "return"]
-            every, _ = S.must_pass(entry, lambda x: x is n, rets, exclude=("ui", "u", "loop"))
-            carrier = cl.call_node
-            hof = carrier.ci["npath"]
-            a0 = strip(S.args_of(carrier)[0])
-            whole = isinstance(a0, tuple) and a0[0] == "ret" and a0[1] == LL + "iter" and hof in ("std::iter::Iterator::for_each", "std::iter::Iterator::fold")
-            elem = S.args_of(n)[0]
-            is_item = "cbarg" in fmt(elem)
-            R.inst("R2.4", "whole-list:%s:%s" % (fname, short(callee)), every and whole and is_item,
-                   "%s: on every path of the closure body=%s; driven by %s over %s (required for_each/fold over list.iter())=%s; applied to the iteration item=%s" % (short(callee), every, hof.split("::")[-1], fmt(a0), whole, is_item), where=n.where(), cfg=cfg)
+            okk = ic["every"] and ic["whole"] and ic["item_ok"] and ic["list"] is not None
+            R.inst("R2.4", "whole-list:%s:%s" % (fname, short(callee)), okk,
+                   "%s: on every path of one iteration=%s; %s over %s.iter() without adapters=%s; applied to the iteration item=%s" % (short(callee), ic["every"], ic["kind"], fmt(ic["list"]), ic["whole"], ic["item_ok"]), where=n.where(), cfg=cfg)
         R.floor("R2.4/%s/%s" % (fname, short(callee)), cfg, 1, len(ns))
     # Iter::next yields every node: each Some path advances to the yielded node's own next link (R3.7) and the iterator starts at list.first
     ii = [f for f in F.fns.values() if f.npath == "<&'a lists::LinkedList as std::iter::IntoIterator>::into_iter"]
@@ -153,7 +145,7 @@ def check(R, F, P, cfg):
         ok = len(sw) == 1 and len(ma) == 1
         if ok:
             lits = S.literals_at(sw[0], exclude=("ui", "u"))
-            on_true = any(a[0] == "bool" and "fold" in fmt(a[1]) and t is True for a, t in lits)
+            on_true = any(a[0] == "bool" and is_has_finalized(S, a[1]) and t is True for a, t in lits)
             order = S.dominates(sw[0], ma[0], exclude=("ui", "u"))
             a_sw = S.args_of(sw[0])
             a_ma = S.args_of(ma[0])
@@ -175,7 +167,7 @@ def check(R, F, P, cfg):
         for p in tables.normal_paths(S, limit=20000):
             t = None
             for a, tr in p.literals:
-                if a[0] == "bool" and "fold" in fmt(a[1]):
+                if a[0] == "bool" and is_has_finalized(S, a[1]):
                     t = tr
             if t is True and (len(p.calls(PC + "swap_list")) != 1 or len(p.calls(PC + "mark_self_and_append")) != 1):
                 bad.append(p.describe()[:100])
@@ -187,33 +179,41 @@ def _is_state_check(a):
 
 
 def _counter_in_fold(S, n_arg):
-    """n_arg must be a `var` local that the fold closure increments by 1 on every path through its body."""
+    """n_arg must be a `var` local that is incremented by 1 on every iteration of the pass that calls finalize_inner."""
     v = strip(n_arg)
-    if not (isinstance(v, tuple) and v and v[0] == "var"):
-        return False, "not a counter variable updated by the fold"
-    folds = [x for x in S.nodes if x.ci is not None and x.inlined and x.ci["k"] == "call" and x.ci["npath"] == "std::iter::Iterator::fold"]
-    for c in folds:
-        for sub in [cx for cx in S.ctxs if cx.call_node is c and cx.via == "closure"]:
+    if not (isinstance(v, tuple) and v and v[0] in ("var", "phi")):
+        return False, "not a counter variable updated by the finalization pass"
+    fis = S.calls_to(CCBOX0 + "finalize_inner")
+    for fi in fis:
+        ic = iteration_context(S, fi)
+        if ic is None:
+            continue
+
+        def incs(x):
+            for s in x.stmts:
+                if s["k"] == "assign":
+                    if s["place"]["p"]:
+                        tgt = strip(S.resolve_place(x.ctx, s["place"]))
+                    else:
+                        tgt = ("loc", x.ctx.id, s["place"]["l"])
+                    same = tgt == v or (isinstance(tgt, tuple) and tgt[0] == "loc" and v[1] == tgt[1] and v[2] == tgt[2])
+                    if same:
+                        val = S.resolve_rv(x.ctx, s["rv"], None)
+                        if _is_plus_one(val, v):
+                            return True
+            return False
+        if ic["closure_ctx"] is not None:
+            sub = ic["closure_ctx"]
             entry = S.blocks_of[(sub.id, 0)]
             rets = [x for x in S.nodes if x.ctx is sub and x.kind == "return"]
-
-            def incs(x):
-                if x.ctx is not sub:
-                    return False
-                for s in x.stmts:
-                    if s["k"] == "assign" and s["place"]["p"]:
-                        tgt = strip(S.resolve_place(sub, s["place"]))
-                        if tgt == v:
-                            val = S.resolve_rv(sub, s["rv"], None)
-                            if "AddWithOverflow" in fmt(val) or ("Add" in fmt(val)):
-                                return _is_plus_one(val, v)
-                return False
             ok, _ = S.must_pass(entry, incs, rets, exclude=("ui", "u", "loop"))
             if incs(entry):
                 ok = True
-            if ok:
-                return True, "incremented by 1 on every path of the fold closure"
-    return False, "no unconditional `+= 1` on it inside the fold closure"
+        else:
+            ok = cycle_must_pass(S, ic["pass"], incs)
+        if ok:
+            return True, "incremented by 1 on every iteration of the finalization pass"
+    return False, "no unconditional `+= 1` on it inside the finalization pass"
 
 
 def _is_plus_one(val, v):
